@@ -27,7 +27,9 @@ RULE = ("case = random description + interleaved operations {session (root / "
         "sub / multi), reopen, relocate (copy|move to nested / unicode / "
         "blank-containing names; opened by absolute path, relative path after "
         "chdir, path with '..', symlinked parent), version skew (recorded "
-        "version <, =, > running, multi-digit components, pre-releases)}. "
+        "version <, =, > running, multi-digit components, pre-releases), "
+        "amend the description on the handle then write_config([]), create "
+        "through a relative path then chdir}. "
         "Oracle: reloaded description == the writer's (model object and "
         "shard infos); at the new location check() passes, iteration equals "
         "the model, further sessions work; open fails iff the recorded "
